@@ -133,6 +133,16 @@ theorem creg_get_by_mask_eq (c : CRegG) (mask : Nat) (hq : c.q_mask < 2 ^ 64) :
   · simp [h, shlW, Nat.mod_eq_of_lt hi, Nat.shiftLeft_eq,
       Nat.mod_eq_of_lt (Nat.pow_lt_pow_right (by decide : 1 < 2) hi)]
 
+/-- the printed form (`impl Debug for CReg`) -/
+theorem creg_fmt_eq (c : CRegG) : creg_fmt c = c.toModel.debug := by
+  unfold creg_fmt CReg.debug
+  rw [bitsList_eq]
+  simp only [CRegG.toModel]
+  congr 2
+  congr 1
+  funext s i
+  by_cases h : i &&& c.value = 0 <;> simp [h]
+
 theorem creg_mul_eq (a b : CRegG) : creg_mul a b = creg_tensor_prod a b := rfl
 theorem creg_mul_assign_eq (a b : CRegG) : creg_mul_assign a b = creg_tensor_prod a b := rfl
 
